@@ -6,7 +6,8 @@
 (* The model state is driven by the logged inputs only (operation + argument,*)
 (* environment actions: the child exits with a code, an outside signal, the  *)
 (* freed descriptor number is taken by someone else, the peer closes /       *)
-(* resets).  At every `op` event the observations (return value / exception  *)
+(* resets, the dead child's status is collected by someone else, the owner   *)
+(* of the log file closes it).  At every `op` event the observations (return value / exception  *)
 (* class, object fields, /proc/<pid>/stat, /proc/self/fd, the real fate read *)
 (* with waitid(WNOWAIT)) are judged, in this order:                          *)
 (*   1. the clauses of C09 / C10 on the observations themselves,             *)
@@ -31,7 +32,8 @@ tvars == <<s, last, nops, nenv, tid, l, verdict, drift>>
 
 \* constants for the generated cfg
 TrAll     == {"pty", "popen", "fd", "socket"}
-DispsAll  == {"default", "ignore"}
+DispsAll  == {"default", "ignore", "core"}
+LogsAll   == {"none", "open"}
 NoSet     == {}
 TraceDevs == {"stale-after-failed-close", "popen-status-unset", "socket-close-raises"}
 
@@ -51,8 +53,8 @@ TInit0 == /\ s = Idle /\ last = NoLast /\ nops = 0 /\ nenv = 0
 
 TStart ==
   /\ THas("init")
-  /\ IF E.tr \in TrAll /\ E.disp \in DispsAll
-     THEN s' = InitState(E.tr, E.disp) /\ verdict' = verdict
+  /\ IF E.tr \in TrAll /\ E.disp \in DispsAll /\ E.log \in LogsAll /\ E.lsend \in BOOLEAN
+     THEN s' = InitStateL(E.tr, E.disp, E.log, E.lsend) /\ verdict' = verdict
      ELSE s' = s /\ verdict' = "harness:bad-init"
   /\ Step /\ UNCHANGED drift
 
@@ -127,6 +129,8 @@ Clauses(pre, o, x) ==
         << o.rv = x.v, "model:ret-value" >>,
         << child => o.proc = st.proc, "model:proc" >>,
         << child => (o.fk = st.fk /\ o.fv = st.fv), "model:fate" >>,
+        << child => o.fc = st.fc, "model:fate-core-flag" >>,
+        << (Pid = "C09" /\ there /\ child) => o.sc = st.sc, "model:status-core-flag" >>,
         << o.fd = st.fd, "model:fd" >>,
         << o.gone = st.gone, "model:gone" >>,
         << there => o.closed = st.closed, "model:closed" >>,
@@ -142,16 +146,17 @@ Clauses(pre, o, x) ==
 \* cannot hide a later lie about liveness or a leak.
 Follow(st, o) ==
   IF Pid = "C10" /\ ~o.gone /\ st.tr \in ChildTransports
-  THEN [st EXCEPT !.term = o.term, !.es = o.es, !.ss = o.ss, !.sk = o.sk, !.sv = o.sv,
+  THEN [st EXCEPT !.term = o.term, !.es = o.es, !.ss = o.ss, !.sk = o.sk, !.sv = o.sv, !.sc = o.sc,
                   !.obs = (o.es # None \/ o.ss # None)]
   ELSE IF Pid = "C09" THEN [st EXCEPT !.touched = o.touched]      \* C10's business
   ELSE st
 
 ModelClauses == {"model:terminated", "model:exitstatus", "model:status", "model:ret", "model:ret-value", "model:proc", "model:fate",
+                 "model:fate-core-flag", "model:status-core-flag",
                  "model:fd", "model:gone", "model:closed", "model:child_fd", "model:flag_eof", "model:ptyprocess-closed",
                  "model:descriptor-count", "model:touched"}
 Adopt(st, o) ==
-  [st EXCEPT !.proc = o.proc, !.fk = o.fk, !.fv = o.fv, !.fd = o.fd, !.gone = o.gone, !.closed = o.closed, !.fdv = o.fdv,
+  [st EXCEPT !.proc = o.proc, !.fk = o.fk, !.fv = o.fv, !.fc = o.fc, !.sc = o.sc, !.fd = o.fd, !.gone = o.gone, !.closed = o.closed, !.fdv = o.fdv,
              !.eof = o.eof, !.pclosed = o.pclosed, !.touched = o.touched,
              !.term = o.term, !.es = o.es, !.ss = o.ss, !.sk = o.sk, !.sv = o.sv]
 
